@@ -490,6 +490,12 @@ func (c *UConn) Write(b []byte) (int, error) {
 }
 
 func (uconn *UConn) ApplyConfig() error {
+	// Hello.ServerName is the name indicated to the server: the one an SNIExtension
+	// below puts on the wire, none if the spec has no SNIExtension (custom spec,
+	// RemoveSNIExtension). ConnectionState().ServerName reports it.
+	if uconn.HandshakeState.Hello != nil {
+		uconn.HandshakeState.Hello.ServerName = ""
+	}
 	for _, ext := range uconn.Extensions {
 		err := ext.writeToUConn(uconn)
 		if err != nil {
